@@ -152,3 +152,11 @@ def sixty_four(O):
 def no_read_skipped(O):
     from . import C08
     C08.expr_eval_step(dri.WithRep(O, rep()))
+
+
+@obligation("C14/expected-column", desc="build_indices, virtual signals (2 signals x 2 header columns, symbolic names): a declared "
+            "signal takes its expected value from the column of exactly its own name, and X when the header has no such column "
+            "- never from another column (such as `<name>_out`)")
+def expected_column(O):
+    from . import C06
+    C06.build_indices(dri.WithRep(O, rep()), "Virtual")
